@@ -520,6 +520,68 @@ def stream_tmle(chk, drv, rng, tier):
                         rep_, _ = drv.ask('icse', ic=enc_opt(ic['risk_difference']), n=n)
                         chk.k(rep_['status'] == 'ok' and close(unfx(rep_['se']), last.risk_difference_se, rtol=1e-9),
                               'TMLE risk difference: model icSe vs implementation', {'case': case, 'model': rep_})
+                else:
+                    # continuous outcome: the influence curve of the bounded problem scaled back by (max - min)
+                    yo = np.asarray(df['Y'], dtype=float)
+                    span = float(np.nanmax(yo) - np.nanmin(yo))
+                    icb = tmle_eic(pr, np.asarray(pr['y'], dtype=float))['risk_difference']
+                    want = float(span ** 2 * np.var(icb, ddof=1) / n)
+                    chk.d(close(last.average_treatment_effect_se ** 2, want, rtol=1e-9, atol=1e-18),
+                          'TMLE average treatment effect: se^2 = variance of the efficient influence curve (outcome '
+                          'scale) / n', dict(case, clause='ic_se', got=float(last.average_treatment_effect_se) ** 2,
+                                             documented=want),
+                          signature={'estimator': 'TMLE', 'measure': 'average_treatment_effect',
+                                     'missing_outcome': bool(missing), 'clause': 'ic_se'})
+
+
+def stmle_reference(df, ytype, p, model_g='L + V', model_q='A + L + V', cb=0.0005):
+    """the documented StochasticTMLE quantities recomputed by the harness from its own nuisance fits:
+    conditional variance mean((H (Y - Q))^2) on the outcome's own scale for any plan, and for a deterministic plan
+    (p = 0 or 1: no Monte-Carlo error) the targeted estimate and the marginal variance
+    mean((H (Y - Q) + Q*_plan - psi)^2)"""
+    import statsmodels.api as sm
+    import statsmodels.formula.api as smf
+    A = df['A'].values.astype(float)
+    Y = df['Y'].values.astype(float)
+    n = len(df)
+    g = smf.glm('A ~ ' + model_g, df, family=sm.families.Binomial()).fit().predict(df).values
+    den = np.where(A == 1, g, 1 - g)
+    d2 = df.copy()
+    if ytype == 'continuous':
+        lo, hi = Y.min(), Y.max()
+        d2['Y'] = np.clip((Y - lo) / (hi - lo), cb, 1 - cb)
+        fam = sm.families.Gaussian()
+
+        def unb(x):
+            return x * (hi - lo) + lo
+    else:
+        fam = sm.families.Binomial()
+
+        def unb(x):
+            return x
+    om = smf.glm('Y ~ ' + model_q, d2, family=fam).fit()
+    Q = om.predict(d2).values
+    if ytype == 'continuous':
+        Q = np.clip(Q, cb, 1 - cb)
+    yb = d2['Y'].values.astype(float)
+    haw = np.where(A == 1, p, 1 - p) / den
+    out = {'conditional_se': float(np.sqrt(np.mean((haw * (unb(yb) - unb(Q))) ** 2) / n))}
+    if p in (0.0, 1.0):
+        eps = float(np.asarray(sm.GLM(yb, np.repeat(1, n), offset=np.log(Q / (1 - Q)), freq_weights=haw,
+                                      family=sm.families.Binomial()).fit().params)[0])
+        d3 = d2.copy()
+        d3['A'] = int(p)
+        ystar = om.predict(d3).values
+        if np.any(ystar <= 0) or np.any(ystar >= 1):
+            # a prediction under the plan left the unit interval (continuous outcome): logit undefined; zEpid then
+            # drops those rows from the mean and reports marginal_se = NaN (reported to the lead, not C06's subject)
+            out['plan_prediction_out_of_range'] = True
+            return out
+        qstar = 1 / (1 + np.exp(-(np.log(ystar / (1 - ystar)) + eps)))
+        psi = float(unb(np.mean(qstar)))
+        out['marginal_outcome'] = psi
+        out['marginal_se'] = float(np.sqrt(np.mean((haw * (unb(yb) - unb(Q)) + unb(qstar) - psi) ** 2) / n))
+    return out
 
 
 def stream_stmle(chk, drv, rng, tier):
@@ -543,6 +605,34 @@ def stream_stmle(chk, drv, rng, tier):
             chk.count('stmle:' + ytype)
             for meas, recs in sorted(store.items()):
                 judge(chk, 'StochasticTMLE:' + meas, 'lin', recs, case)
+            # secondary quantities against their documented definitions (harness's own nuisance fits): conditional se
+            # for a stochastic plan, everything for the deterministic plans p = 1 and p = 0
+            for q in (p, 1.0, 0.0):
+                dc = dict(case, p=q, clause='documented_variance')
+                chk.case(dc, ('stmle-def', ytype, q, hash(df.to_csv())))
+                chk.count('stmle_definition:%s/p=%s' % (ytype, q))
+                try:
+                    mm = StochasticTMLE(df, exposure='A', outcome='Y', alpha=0.2)
+                    mm.exposure_model('L + V')
+                    mm.outcome_model('A + L + V')
+                    mm.fit(p=q, samples=3, seed=0)
+                    ref = stmle_reference(df, ytype, q)
+                    if ref.pop('plan_prediction_out_of_range', False):
+                        chk.count('stmle_plan_prediction_out_of_range_not_judged')
+                    got = {k: float(getattr(mm, k)) for k in ref}
+                    dc.update(got=got, documented=ref)
+                    # 1e-7: two independent runs of the same IRLS fits (agreement measured: 1e-15)
+                    for k in sorted(ref):
+                        chk.d(close(got[k], ref[k], rtol=1e-7, atol=1e-12),
+                              'StochasticTMLE %s = its documented definition on the outcome scale' % k, dc)
+                    zz = z_of(0.2)
+                    chk.d(close(mm.conditional_ci[0], mm.marginal_outcome - zz * ref['conditional_se'], rtol=1e-7,
+                                atol=1e-10) and
+                          close(mm.conditional_ci[1], mm.marginal_outcome + zz * ref['conditional_se'], rtol=1e-7,
+                                atol=1e-10),
+                          'StochasticTMLE conditional_ci = estimate -/+ z * documented conditional se', dc)
+                except Exception as e:      # noqa: BLE001
+                    chk.d(False, 'StochasticTMLE runs on a valid plan (p=%s)' % q, dict(dc, error=repr(e)))
             # history: several plans fitted on ONE object; each fit must report what a fresh object reports for
             # that plan (estimate, both standard errors, both intervals)
             plans = [q for q in (0.9, 0.1, p) ]
